@@ -225,6 +225,18 @@ Definition tern_cast (tT : Z) (cond : bool) (value : iface) (ifFalse : P) : resu
     | None => Panic OtherPanic
     end
   else Ok ifFalse.
+
+(* TernCast[T] where T is itself an interface type (any, error, ...): value.(T)
+   succeeds for every non-nil value whose dynamic type implements T ([impl]),
+   and yields the same dynamic value seen as a T; on the nil interface it panics
+   (also for T = any).  ifFalse is a T, i.e. an interface value. *)
+Definition tern_cast_iface (impl : Z -> bool) (cond : bool) (value : iface) (ifFalse : iface) : result iface :=
+  if cond then
+    match value with
+    | Some (dyn, p) => if impl dyn then Ok (Some (dyn, p)) else Panic OtherPanic
+    | None => Panic OtherPanic
+    end
+  else Ok ifFalse.
 End Iface.
 Arguments iface : clear implicits.
 Arguments gvalue : clear implicits.
